@@ -379,6 +379,9 @@ func c06RandPathFor(rng *Rng, p string) string {
 
 func genC06(tier string, rng *Rng) {
 	thorough := tier == "thorough"
+	defer genC06Wide(tier, rng) // X06: nodes with more than 16 static children, three registration orders
+	defer genC06Groups(tier, rng) // X06: RouterGroup path assembly, path.Clean / path.Join
+	defer genC06X(tier, rng) // X06: engine options (trailing-slash redirect, 405, raw path, unescape, extra slashes)
 	// (1) exhaustive: all sets of <= 3 patterns with <= 2 segments, all registration orders
 	u2 := c06Patterns(2)
 	lim3 := 14
